@@ -174,16 +174,14 @@ Section Proofs.
       rewrite andb_true_iff, !Nat.eqb_eq in H. destruct H as (-> & ->). apply ok_empty; auto.
   Qed.
 
-  (* ---- forests given as lists of (label, family), as exported by the harness ---- *)
-  Definition in_forest (fams : list (nlabel * family)) (lbl : nlabel) (f : family) : Prop := In (lbl, f) fams.
-  Definition forest_okb (fams : list (nlabel * family)) : bool :=
-    forallb (fun lf => fam_okb (fst lf) (snd lf)) fams.
+  Notation in_forest := (in_forest tok).
+  Notation forest_okb := (forest_okb G tok tmatch tlen occurs).
 
   Theorem A_sound fams : forest_okb fams = true ->
     forall lbl ds, den tok (in_forest fams) lbl ds -> sound lbl ds.
   Proof.
     intros H. apply A_sound_gen. intros lbl f Hin. apply fam_okb_ok.
-    unfold forest_okb in H. rewrite forallb_forall in H. apply (H (lbl, f)); auto.
+    unfold ExplicitBuild.forest_okb in H. rewrite forallb_forall in H. apply (H (lbl, f)); auto.
   Qed.
 
   (* every tree stored below a symbol node (a, i, j) is a derivation of a whose yield tiles i..j *)
@@ -285,4 +283,184 @@ Section Chart.
       destruct s; [|simpl in L2; lia]. rewrite app_nil_r in E0. auto. }
     exists d. repeat split; auto. pose proof (wfd_derives _ _ _ _ _ Hw) as Hd. rewrite E in Hd. exact Hd.
   Qed.
+
+  (* ---- completeness of the forest built over the chart ---- *)
+  Notation wfd := (wfd G tok tmatch).
+  Notation tiles := (tiles tok tlen1 occurs).
+  Notation den := (den tok added).
+  Notation den_opt := (den_opt tok added).
+
+  Definition expects (i a : nat) : Prop :=
+    (exists r0 d0 j0, chart i (mkItem r0 d0 j0) /\ nth_error (rhs r0) d0 = Some (NT a)) \/ (a = start /\ i = 0).
+
+  Lemma expects_pred i a r : expects i a -> In r G -> lhs r = a -> chart i (mkItem r 0 i).
+  Proof.
+    intros [(r0 & d0 & j0 & Hc & Hn)|(-> & ->)] Hin Hl.
+    - eapply c_pred; eauto.
+    - apply c_init; auto.
+  Qed.
+
+  Lemma skipn_S_cons {A} n : forall (l : list A) s r, skipn n l = s :: r -> skipn (S n) l = r.
+  Proof.
+    induction n as [|n IH]; intros [|x l] s r E; simpl in *; try discriminate.
+    - inversion E; auto. - apply (IH l s r); auto.
+  Qed.
+
+  Lemma chart_dot_le k it : chart k it -> dot it <= length (rhs (irule it)).
+  Proof.
+    induction 1; simpl in *; try lia.
+    - assert (d < length (rhs r)) by (apply nth_error_Some; congruence). lia.
+    - assert (d < length (rhs r)) by (apply nth_error_Some; congruence). lia.
+  Qed.
+
+  Lemma tiles_split u : forall i j v, tiles i j (u ++ v) -> exists m, tiles i m u /\ tiles m j v.
+  Proof.
+    induction u as [|x u IH]; simpl; intros i j v H.
+    - exists i; split; auto. constructor.
+    - inversion H; subst. destruct (IH _ _ _ H5) as (m & H1 & H2). exists m; split; auto. constructor; auto.
+  Qed.
+
+  Lemma tiles_nil_eq i j : tiles i j [] -> i = j.
+  Proof. inversion 1; auto. Qed.
+
+  Lemma den_opt_inode r dd i m pre :
+    dd < length (rhs r) -> length pre = dd ->
+    (1 <= dd -> den (ilabel tok r dd i m) (pack tok (ilabel tok r dd i m) r pre)) ->
+    den_opt (inode r dd i m) pre.
+  Proof.
+    intros Hlt Hlen H. destruct dd as [|dd']; simpl.
+    - destruct pre; [constructor | discriminate].
+    - constructor. specialize (H ltac:(lia)). unfold ilabel in H.
+      destruct (Nat.eqb_spec (S dd') (length (rhs r))); [lia|]. simpl in H. exact H.
+  Qed.
+
+  (* what completeness says about one derivation tree *)
+  Definition CT (d : dt tok) : Prop :=
+    forall a i j, wfd d (NT a) -> tiles i j (yield tok d) -> expects i a ->
+    exists r ks, d = DN tok r ks /\ chart j (mkItem r (length (rhs r)) i) /\ den (NSym tok a i j) [d].
+
+  Lemma steps r i : In r G ->
+    forall post pre m j,
+      Forall CT post ->
+      Forall2 wfd post (skipn (length pre) (rhs r)) ->
+      tiles m j (yields tok post) ->
+      chart m (mkItem r (length pre) i) ->
+      (length pre = 0 -> m = i) ->
+      (1 <= length pre -> den (ilabel tok r (length pre) i m) (pack tok (ilabel tok r (length pre) i m) r pre)) ->
+      chart j (mkItem r (length (rhs r)) i) /\ den (NSym tok (lhs r) i j) [DN tok r (pre ++ post)].
+  Proof.
+    intros Hin post. induction post as [|k post IH]; intros pre m j HC HF Ht Hch H0 Hden.
+    - (* all children consumed *)
+      assert (E : skipn (length pre) (rhs r) = []) by (inversion HF; auto).
+      assert (Hlen : length (rhs r) <= length pre).
+      { assert (E2 : length (skipn (length pre) (rhs r)) = 0) by (rewrite E; auto). rewrite skipn_length in E2. lia. }
+      pose proof (chart_dot_le _ _ Hch) as Hle. simpl in Hle.
+      apply tiles_nil_eq in Ht. subst j. rewrite app_nil_r.
+      assert (Eq : length pre = length (rhs r)) by lia.
+      rewrite <- Eq. split; auto.
+      destruct (length pre) as [|dd'] eqn:El.
+      + (* empty rule *)
+        destruct pre; [|discriminate]. rewrite (H0 eq_refl) in *.
+        assert (Hr : rhs r = []) by (destruct (rhs r); auto; discriminate).
+        change [DN tok r []] with (pack tok (NSym tok (lhs r) i i) r ([] ++ [])).
+        eapply den_fam; [apply add_empty; auto | constructor | constructor].
+      + specialize (Hden ltac:(lia)). unfold ilabel in Hden. rewrite Eq, Nat.eqb_refl in Hden. exact Hden.
+    - (* one more child *)
+      destruct (skipn (length pre) (rhs r)) as [|s srest] eqn:Es; inversion HF as [|? ? ? ? Hk HF']; subst.
+      assert (Hn : nth_error (rhs r) (length pre) = Some s).
+      { rewrite <- (firstn_skipn (length pre) (rhs r)). rewrite Es.
+        assert (length pre <= length (rhs r)).
+        { destruct (Nat.le_gt_cases (length pre) (length (rhs r))); auto.
+          rewrite skipn_all2 in Es by lia. discriminate. }
+        rewrite nth_error_app2; rewrite firstn_length_le by auto; auto. rewrite Nat.sub_diag. reflexivity. }
+      assert (Hlt : length pre < length (rhs r)) by (apply nth_error_Some; congruence).
+      assert (Es' : skipn (length (pre ++ [k])) (rhs r) = srest).
+      { rewrite app_length. simpl. replace (length pre + 1) with (S (length pre)) by lia.
+        eapply skipn_S_cons; eauto. }
+      inversion HC as [|? ? HCk HC']; subst.
+      pose proof (den_opt_inode r (length pre) i m pre Hlt eq_refl Hden) as Hleft.
+      unfold yields in Ht. simpl in Ht. fold (yields tok post) in Ht.
+      replace (pre ++ k :: post) with ((pre ++ [k]) ++ post) by (rewrite <- app_assoc; reflexivity).
+      assert (Elen : length (pre ++ [k]) = S (length pre)) by (rewrite app_length; simpl; lia).
+      destruct s as [t|b].
+      + (* terminal: scanner *)
+        inversion Hk as [t0 x Hm|]; subst. simpl in Ht. inversion Ht as [|? ? ? ? Ho Ht']; subst.
+        unfold tlen1 in Ht'. replace (m + 1) with (S m) in Ht' by lia.
+        pose proof (proj1 (occurs_spec _ _) Ho) as Hw.
+        apply (IH (pre ++ [DL tok t x]) (S m) j); auto.
+        * rewrite Elen. eapply c_scan; eauto.
+        * rewrite Elen. discriminate.
+        * intros _. rewrite Elen. eapply den_fam; [eapply add_scan; eauto | exact Hleft | constructor; constructor].
+      + (* non-terminal: completer *)
+        apply tiles_split in Ht. destruct Ht as (m' & Ht1 & Ht2).
+        destruct (HCk b m m' Hk Ht1) as (r' & ks' & -> & Hc' & Hd').
+        { left. eauto. }
+        assert (Hl' : lhs r' = b) by (inversion Hk; auto).
+        apply (IH (pre ++ [DN tok r' ks']) m' j); auto.
+        * rewrite Elen. eapply c_comp; eauto.
+        * rewrite Elen. discriminate.
+        * intros _. rewrite Elen. eapply den_fam; [eapply add_comp; eauto | exact Hleft | constructor; exact Hd'].
+  Qed.
+
+  Lemma CT_all d : CT d.
+  Proof.
+    induction d as [t x|r ks IH] using (dt_ind2 tok); intros a i j Hw Ht Hex.
+    - inversion Hw.
+    - inversion Hw as [|? ? Hin HF]; subst. exists r, ks. split; auto.
+      rewrite yield_DN in Ht.
+      pose proof (expects_pred _ _ _ Hex Hin eq_refl) as Hc.
+      apply (steps r i Hin ks [] i j); auto.
+      simpl. intros; lia.
+  Qed.
+
+  Lemma tiles_suffix u : forall p, w = p ++ u -> tiles (length p) (length w) u.
+  Proof.
+    induction u as [|x u IH]; intros p E.
+    - rewrite E, app_nil_r. constructor.
+    - constructor.
+      + apply occurs_spec. rewrite E. rewrite nth_error_app2 by lia. rewrite Nat.sub_diag. reflexivity.
+      + unfold tlen1. specialize (IH (p ++ [x])). rewrite app_length in IH. simpl in IH. apply IH.
+        rewrite E, <- app_assoc. reflexivity.
+  Qed.
+
+  (* every derivation tree of the input is stored below the root of the forest built over the chart *)
+  Theorem A_complete_chart d : wfd d (NT start) -> yield tok d = w ->
+    den (NSym tok start 0 (length w)) [d].
+  Proof.
+    intros Hw Hy. destruct (CT_all d start 0 (length w) Hw) as (r & ks & _ & _ & H); auto.
+    - rewrite Hy. apply (tiles_suffix w []). reflexivity.
+    - right; auto.
+  Qed.
+
+  (* den is monotone in the family set *)
+  Lemma den_mono (F1 F2 : nlabel -> family -> Prop) : (forall lbl f, F1 lbl f -> F2 lbl f) ->
+    forall lbl ds, ExplicitBuild.den tok F1 lbl ds -> ExplicitBuild.den tok F2 lbl ds.
+  Proof.
+    intros Hsub lbl ds H.
+    refine (den_mind tok F1 (fun l ds => ExplicitBuild.den tok F2 l ds) (fun o ds => ExplicitBuild.den_opt tok F2 o ds)
+              _ _ _ _ lbl ds H).
+    - intros; constructor.
+    - intros. eapply den_fam; eauto.
+    - constructor.
+    - intros. constructor; auto.
+  Qed.
+
+  (* exactness at the specification level: the trees below the root are exactly the derivation trees of w *)
+  Theorem A_exact_chart ds :
+    den (NSym tok start 0 (length w)) ds <-> exists d, ds = [d] /\ wfd d (NT start) /\ yield tok d = w.
+  Proof.
+    split.
+    - intros H. apply A_sound_chart in H. destruct H as (d & -> & Hw & Ht).
+      apply tiles_span in Ht; [|lia]. destruct Ht as (p & s & E0 & L1 & L2).
+      exists d. repeat split; auto.
+      destruct p; [|discriminate]. simpl in *. rewrite E0 in L2. rewrite app_length in L2.
+      destruct s; [|simpl in L2; lia]. rewrite app_nil_r in E0. auto.
+    - intros (d & -> & Hw & Hy). apply A_complete_chart; auto.
+  Qed.
+
+  (* any forest that contains the families added over the chart stores every derivation tree of w *)
+  Theorem A_complete_superset (F : nlabel -> family -> Prop) :
+    (forall lbl f, added lbl f -> F lbl f) ->
+    forall d, wfd d (NT start) -> yield tok d = w -> ExplicitBuild.den tok F (NSym tok start 0 (length w)) [d].
+  Proof. intros Hsub d Hw Hy. eapply den_mono; eauto. apply A_complete_chart; auto. Qed.
 End Chart.
